@@ -692,4 +692,129 @@ theorem cycle2_keeps_untouched (cfg : Cfg) (sub : SubReg) (P : Store) (now : Tic
     simp [hnf1, hnf]
   · simp [hx]
 
+/-! ### The selection side of the sub-registries — for every cause, deletion included
+
+None of the sub-handler theorems above (`sub_no_rerun`, `sub_retry_kwarg`, `parent_final_iff_subs_finished`,
+`sub_records_covered`, `sub_writes_only_known`, `sub_records_purged_on_close`, the `cycle2_*` ones) has a
+hypothesis about `cfg.reason`: `subPass` only stamps the reason into fresh records, and `cycle2` asks only that it
+be one of the four handler reasons. They hold verbatim for the sub-handlers of `@kopf.on.delete` parents.
+
+What the model does NOT derive is WHICH sub-handlers the sub-registry yields for the cause: `subCfgOf` takes the
+registered children of the parent as the selected ones (sub-handlers declared without criteria of their own). The
+gate that decides it in the code (`ChangingRegistry.iter_handlers`: reason / initial / deleted /
+field_needs_change) is modelled in `Kopf.C15.gate` and `Kopf.C05.gate`; /repo 345a874 had that gate drop every
+sub-handler on a marked object (repaired by 17e5c42). Here the assumption is stated (`sub_selection_is_registration`),
+compared with the code on every parent invocation (tie "C02 sub-registry selection"), and its consequences are
+theorems: under it, a due child IS invoked and the cycle does not close before every registered child finished. -/
+
+/-- The selection side as the model has it: the sub-pass of a parent owns and selects exactly the sub-handlers the
+    parent registered, under the parent's cause — whatever the cause is. -/
+theorem sub_selection_is_registration (cfg : Cfg) (sub : SubReg) (p : Id) :
+    (subCfgOf cfg sub p).selected = sub.children p ∧ (subCfgOf cfg sub p).owned = sub.children p ∧
+    (subCfgOf cfg sub p).reason = cfg.reason ∧ (subCfgOf cfg sub p).lifecycle = cfg.lifecycle :=
+  ⟨rfl, rfl, rfl, rfl⟩
+
+/-- "… and not before", for sub-handlers and for every cause: when the composed pass closes the cycle (progress
+    purged, last-handled state written / the finalizer released on a deletion), every registered sub-handler of
+    every parent invoked in it has finished. -/
+theorem cycle2_closed_children_finished (cfg : Cfg) (sub : SubReg) (P : Store) (now : Tick)
+    (execLeaf : Id → Nat → Outcome)
+    (hc : (cycle2 cfg sub P now execLeaf).closed = true)
+    (p : Id) (n : Nat) (hinv : (p, n) ∈ (cycle2 cfg sub P now execLeaf).invoked)
+    (i : Id) (hi : i ∈ sub.children p) :
+    ∃ r, (subPass (subCfgOf cfg sub p) P now now execLeaf).P' i = some r ∧ r.finished = true := by
+  rw [cycle2_eq] at hc hinv
+  simp only at hc hinv
+  obtain ⟨hsel, _⟩ := execOnce_invoked hinv
+  obtain ⟨hs, hpre, _, hpost⟩ := postState_invoked hinv
+  have hk : p ∈ known cfg := by simp [known, hsel]
+  have hact : hs.active = true := (preState_active hpre).2 hsel
+  have hne : (sub.children p).isEmpty = false := by
+    cases hl : sub.children p with
+    | nil => rw [hl] at hi; cases hi
+    | cons _ _ => rfl
+  unfold done at hc
+  rw [List.all_eq_true] at hc
+  have hp := hc p hk
+  rw [hpost] at hp
+  simp only [hact, Bool.not_true, Bool.false_or, withOutcome_finished] at hp
+  simp only [execTop, hne, Bool.false_eq_true, if_false] at hp
+  exact (parent_final_iff_subs_finished (subCfgOf cfg sub p) P now now execLeaf (fun j hj => hj)).1 hp i hi
+
+/-- The invoking side for the all-at-once lifecycle and every cause: a registered sub-handler of an invoked
+    parent that is still due on the body (no success/permanent failure recorded, not sleeping, within its limits)
+    IS invoked in the composed pass, with `retry` = its recorded attempts. (For one-by-one/asap one due child is
+    planned per sub-pass; which one is `plan`.) -/
+theorem cycle2_due_child_invoked_all_at_once (cfg : Cfg) (sub : SubReg) (P : Store) (now : Tick)
+    (execLeaf : Id → Nat → Outcome) (hlc : cfg.lifecycle = .allAtOnce)
+    (p : Id) (n : Nat) (hinv : (p, n) ∈ (cycle2 cfg sub P now execLeaf).invoked)
+    (i : Id) (hi : i ∈ sub.children p)
+    (haw : (match P i with | some r => r | none => fresh now cfg.reason).awakened now = true)
+    (hpre : precheckFails (sub.limits i) (match P i with | some r => r | none => fresh now cfg.reason) now = false) :
+    (i, match P i with | some r => r.retries | none => 0) ∈ (cycle2 cfg sub P now execLeaf).subInvoked := by
+  rw [cycle2_eq] at hinv ⊢
+  simp only at hinv ⊢
+  have hne : (sub.children p).isEmpty = false := by
+    cases hl : sub.children p with
+    | nil => rw [hl] at hi; cases hi
+    | cons _ _ => rfl
+  simp only [List.mem_flatMap]
+  refine ⟨p, List.mem_map.2 ⟨(p, n), hinv, rfl⟩, ?_⟩
+  simp only [hne, Bool.false_eq_true, if_false]
+  rw [subPass_invoked_eq]
+  have hsel : i ∈ (subCfgOf cfg sub p).selected := hi
+  obtain ⟨h, hst, _, hrec, _⟩ := subSt0_selected (P := P) (now := now) hsel hsel
+  have hrec' : h.r = (match P i with | some r => r | none => fresh now cfg.reason) := hrec
+  have hn : (match P i with | some r => r.retries | none => 0) = h.r.retries := by
+    rw [hrec']; cases P i <;> simp [fresh]
+  rw [hn]
+  exact execOnce_allAtOnce_invokes (cfg := subCfgOf cfg sub p) hlc hsel hst (by rw [hrec']; exact haw)
+    (by rw [hrec']; exact hpre)
+
+/-- Regression of the defect of /repo 345a874 (repaired by 17e5c42), in the model: a DELETION handler `d0` with the
+    sub-handlers `d0/a`, `d0/b`. First pass: both children are invoked, `d0/a` succeeds, `d0/b` is to be retried —
+    the parent is not final, the cycle stays open (the finalizer is kept), both records are on the object. Second
+    pass: only `d0/b` is invoked (retry 1), it succeeds, the parent finishes, the cycle closes and every record is
+    purged. (In the defective code the sub-registry selected nothing on a marked object: the first pass invoked no
+    child and closed at once.) -/
+theorem delete_parent_runs_its_children_regression :
+    let ok : Outcome := { final := true, delay := none, error := false, subrefs := [] }
+    let again : Outcome := { final := false, delay := some 0, error := true, subrefs := [] }
+    let sub : SubReg := { children := fun p => if p = "d0" then ["d0/a", "d0/b"] else [],
+                          limits := fun _ => ⟨none, none⟩ }
+    let cfg : Cfg := { owned := ["d0"], selected := ["d0"], limits := fun _ => ⟨none, none⟩,
+                       reason := "delete", lifecycle := .allAtOnce }
+    let c1 := cycle2 cfg sub (fun _ => none) 0 (fun i _ => if i = "d0/a" then ok else again)
+    let c2 := cycle2 cfg sub c1.P' 0 (fun _ _ => ok)
+    c1.invoked = [("d0", 0)] ∧ c1.subInvoked = [("d0/a", 0), ("d0/b", 0)] ∧ c1.closed = false ∧
+    ((c1.P' "d0/a").map (·.success)) = some true ∧ ((c1.P' "d0/b").map (·.retries)) = some 1 ∧
+    ((c1.P' "d0").map (·.subrefs)) = some ["d0/a", "d0/b"] ∧
+    c2.invoked = [("d0", 1)] ∧ c2.subInvoked = [("d0/b", 1)] ∧ c2.closed = true ∧
+    c2.P' "d0" = none ∧ c2.P' "d0/a" = none ∧ c2.P' "d0/b" = none := by
+  refine ⟨by decide, by decide, by decide, by decide, by decide, by decide, by decide, by decide, by decide,
+          by decide, by decide, by decide⟩
+
+-- non-vacuity of `cycle2_closed_children_finished` / `cycle2_due_child_invoked_all_at_once` on a deletion:
+-- the hypotheses are met by the second / first pass of the regression above
+example :
+    let ok : Outcome := { final := true, delay := none, error := false, subrefs := [] }
+    let sub : SubReg := { children := fun p => if p = "d0" then ["d0/a"] else [], limits := fun _ => ⟨none, none⟩ }
+    let cfg : Cfg := { owned := ["d0"], selected := ["d0"], limits := fun _ => ⟨none, none⟩,
+                       reason := "delete", lifecycle := .allAtOnce }
+    (cycle2 cfg sub (fun _ => none) 0 (fun _ _ => ok)).closed = true ∧
+    ("d0", 0) ∈ (cycle2 cfg sub (fun _ => none) 0 (fun _ _ => ok)).invoked ∧
+    (fresh 0 cfg.reason).awakened 0 = true ∧
+    precheckFails (sub.limits "d0/a") (fresh 0 cfg.reason) 0 = false := by
+  refine ⟨by decide, by decide, by decide, by decide⟩
+
+-- the sub-pass theorems on a deletion: reason "delete", a recorded success is not re-run, the due one gets retry 2
+example :
+    let cfg : Cfg := { owned := ["d0/a", "d0/b"], selected := ["d0/a", "d0/b"], limits := fun _ => ⟨none, none⟩,
+                       reason := "delete", lifecycle := .allAtOnce }
+    let recOf (fin : Bool) (n : Nat) : Rec :=
+      { started := 0, delayed := none, purpose := some "delete", retries := n, success := fin, failure := false, subrefs := [] }
+    let P : Store := fun i => if i = "d0/a" then some (recOf true 1) else if i = "d0/b" then some (recOf false 2) else none
+    (subPass cfg P 5 5 (fun _ _ => { final := true, delay := none, error := false, subrefs := [] })).invoked
+      = [("d0/b", 2)] := by decide
+
 end Kopf.C02
